@@ -77,7 +77,7 @@ fn tol_for(f32m: bool, s: f64, n: usize, p: usize) -> Tol {
     let (eps_k, e_sum, e_mean, e_dist) = if f32m {
         (4096.0 * f32::EPSILON as f64, 2e-4, 1e-4, 5e-3)
     } else {
-        (4096.0 * f64::EPSILON, 1e-11, 1e-11, 1e-6)
+        (4096.0 * f64::EPSILON, 2e-13, 2e-13, 1e-6)
     };
     // The BBD tree merges the points of a box whose half-width is below an ABSOLUTE 1e-10 into one leaf and
     // represents them by its first point (a design approximation inherited by the library). Two distinct
@@ -738,7 +738,7 @@ fn gen_case(batch: &str, _index: u64, seed: u64) -> Case {
     let mut k = pr.usize_in(2, 8).min(n);
     if crowded {
         // few rows, many clusters: clusters empty out and fill up again; either a coarse lattice (exact ties) or
-        // pairs of rows a relative 1e-6..1e-8 of the range apart (far above the tree's absolute 1e-10 merge radius,
+        // pairs of rows a relative 1e-6..1e-12 of the range apart (>= 1e-8 absolute) (far above the tree's absolute 1e-10 merge radius,
         // so every row must still find ITS nearest centroid)
         if pr.chance(0.5) {
             let levels = pr.usize_in(2, 8) as u64;
@@ -749,8 +749,10 @@ fn gen_case(batch: &str, _index: u64, seed: u64) -> Case {
             }
             dname = "crowded-lattice";
         } else {
+            // gaps from a relative 1e-6 down to 1e-12 of the range, but never below 1e-8 absolute
+            // (50x the diameter the unchanged tree merges)
             let range = *pr.pick(&[1.0, 100.0, 1.0e4, 1.0e6]);
-            let rel = *pr.pick(&[1e-6, 1e-7, 1e-8]);
+            let rel = (*pr.pick(&[1e-6, 1e-7, 1e-8, 1e-10, 1e-11, 1e-12]) as f64).max(2e-8 / range);
             for i in 0..n {
                 if i % 2 == 0 {
                     for v in data[i].iter_mut() {
@@ -864,7 +866,7 @@ impl Property for C12 {
         vec![
             Batch { name: "fit-exhaustive-small", count: tiny_plans().len() as u64, simulated: true, exhaustive: true, note: "six fixed data sets of 4..6 rows (duplicates, lattice, collinear): every tuple of rows k-means++ can be steered to (first index x every D^2 slice) for k = 2, 3, forced through the RNG seam" },
             Batch { name: "fit-prng", count: if q { 60_000 } else { 4_000_000 }, simulated: true, exhaustive: false, note: "k-means++ draws served from the seeded PRNG tape; in-run probe judged at every Lloyd step" },
-            Batch { name: "fit-crowded", count: if q { 40_000 } else { 2_000_000 }, simulated: true, exhaustive: false, note: "4..12 rows, up to 8 clusters: coarse lattices (clusters empty out and are re-populated) and near-duplicate pairs a relative 1e-6..1e-8 of the range apart" },
+            Batch { name: "fit-crowded", count: if q { 40_000 } else { 2_000_000 }, simulated: true, exhaustive: false, note: "4..12 rows, up to 8 clusters: coarse lattices (clusters empty out and are re-populated) and near-duplicate pairs a relative 1e-6..1e-12 of the range apart (>= 1e-8 absolute)" },
             Batch { name: "fit-extreme", count: if q { 40_000 } else { 2_000_000 }, simulated: true, exhaustive: false, note: "extreme words (cut-off 0.0, 1-2^-53, first/last row) injected at random draw sites" },
             Batch { name: "fit-forced-first", count: if q { 12_000 } else { 500_000 }, simulated: true, exhaustive: false, note: "first centroid forced onto a chosen (often duplicated / last) row" },
             Batch { name: "fit-f32", count: if q { 12_000 } else { 500_000 }, simulated: true, exhaustive: false, note: "same as fit-prng in single precision (tolerances scaled)" },
@@ -1038,7 +1040,7 @@ impl Property for C12 {
         vec![
             "the only nondeterminism KMeans::fit consumes is rand::thread_rng() inside kmeans_plus_plus, served by the simulator through the patched rand 0.8.8 copy".into(),
             "the cfg(smartcore_verif) probe reports exactly the arguments and results of BBDTree::clustering at each Lloyd step (add-only hook, src/verif.rs)".into(),
-            "reference model: exhaustive nearest-centroid search in f64; tolerances (relative to data/centroid scale s): squared-distance excess 4096*eps*p*(s*sqrt(d2)+d2) (condition-aware, so data far from the origin are judged as strictly as centred data), sums 1e-11*s*n, means 1e-11*s, distortion 1e-6 relative (f32: 2e-4, 1e-4, 5e-3) — at least 100x the measured worst case, which is reported under measured_maxima".into(),
+            "reference model: exhaustive nearest-centroid search in f64; tolerances (relative to data/centroid scale s): squared-distance excess 4096*eps*p*(s*sqrt(d2)+d2) (condition-aware, so data far from the origin are judged as strictly as centred data), sums 2e-13*s*n, means 2e-13*s (about 1000 unit roundoffs; measured worst 4e-15), distortion 1e-6 relative (f32: 2e-4, 1e-4, 5e-3) — at least 100x the measured worst case, which is reported under measured_maxima".into(),
             "the BBD tree merges the points of a box of half-width < 1e-10 (absolute) into one leaf represented by its first point; every tolerance therefore carries an absolute term of a few 1e-10 per merged row (data are generated at scales >= 1e-2, where this is < 1e-7 relative); data at scales near 1e-10 would be clustered as if all rows coincided — an observation for the maintainers, outside the generated domain".into(),
             "sampling, not enumeration: a clean batch is evidence, not proof".into(),
         ]
